@@ -334,6 +334,8 @@ class Frontend:
             if bn in ("dict", "Dict", "defaultdict", "Mapping"):
                 k = self.parse_type(args[0], mi, depth + 1)
                 v = self.parse_type(args[1], mi, depth + 1) if len(args) > 1 else ANY
+                if bn == "defaultdict":
+                    return TDict(k, v, default=v)  # sidecar field_types only: a dict built as defaultdict(<factory of V>) - a missing key is inserted on read
                 return TDict(k, v)
             if bn in ("list", "List", "Sequence", "Iterable", "Iterator"):
                 return TList(self.parse_type(args[0], mi, depth + 1))
